@@ -37,6 +37,9 @@ def pid_exists(pid):
         os.kill(pid, 0)
     except ProcessLookupError:
         return False
+    except OverflowError:
+        # PID is too big to fit a C pid_t: it cannot belong to a process.
+        return False
     except PermissionError:
         # EPERM clearly means there's a process to deny access to
         return True
